@@ -1,7 +1,7 @@
 """C01 - Export tool writes exactly the model JSON to standard output."""
 import re
 
-from ..exprs import ExprBuilder, walk, show, short_callee
+from ..exprs import ExprBuilder, walk, show, short_callee, strip
 from ..mir import callee_of, callee_name, op_const
 from ..facts import AnalysisError
 
@@ -193,6 +193,28 @@ def run(ctx):
             detail = "printed value is %s, expected the Ok payload of Model::as_json(&model)" % detail[:160]
         if good:
             ctx.ok("c01.provenance", "c01.provenance|cli_main", "printed value = as_json(&collect_hulc_data(..)?)@Ok", fn.loc(t.get("ln")))
+            # the conversion is the library's conversion *for the user's options*: the flags reach collect_hulc_data as parsed, not recomputed
+            call = m[1][2][0]
+            eb0 = ExprBuilder(body)
+            bad_args = []
+            for ai, a in enumerate(call[2][1:], 1):
+                a = strip(a)
+                if a[0] == "proj" and strip(a[1])[0] in ("var", "arg") and "Options" in body.local_ty(strip(a[1])[1]):
+                    continue          # a field of the parsed options
+                if a[0] == "k":
+                    bad_args.append("argument %d is the constant %s" % (ai, a[1]))
+                elif a[0] == "var":
+                    vals = []
+                    for d in body.defs().get(a[1], []):
+                        vals.append(show(strip(eb0.rvalue(d[3]["rv"])))[:60] if d[0] == "st" else show(strip(eb0.call_node(d[2], d[1])))[:60])
+                    bad_args.append("argument %d is the local `%s`, assigned %s" % (ai, a[2], " / ".join(vals)))
+                else:
+                    bad_args.append("argument %d is %s" % (ai, show(a)[:80]))
+            if bad_args:
+                ctx.violation("c01.provenance", "c01.provenance|cli_main|options", "collect_hulc_data is not called with the options as parsed from the command line: %s "
+                              "(the exported model can differ from the library conversion for the same directory and option)" % "; ".join(bad_args), fn.loc(t.get("ln")))
+            else:
+                ctx.ok("c01.provenance", "c01.provenance|cli_main|options", "collect_hulc_data(dir, opts.<flag>, opts.<flag>): the parsed options reach the library unmodified", fn.loc(t.get("ln")))
         else:
             ctx.violation("c01.provenance", "c01.provenance|cli_main", detail, fn.loc(t.get("ln")))
     # model never mutably borrowed in cli_main, Model: Freeze
